@@ -722,7 +722,7 @@ func genC12(g GenCtx) interface{} {
 
 // ---------------------------------------------------------------- C14
 
-var listFailKinds = []string{"error", "error-typed-nil", "error-with-list", "error-with-full-list", "error-timeout", "error-canceled", "error-canceled-bare", "error-deadline-bare", "error-notrunning", "error-notrunning-wrapped", "error-nilcause", "error-nilcause-with-list", "error-aggregate", "nonlist", "nonobjects", "noitems", "status-object", "unstructured-object", "nil"}
+var listFailKinds = []string{"error", "error-typed-nil", "error-with-list", "error-with-full-list", "error-timeout", "error-canceled", "error-canceled-bare", "error-deadline-bare", "error-notrunning", "error-notrunning-wrapped", "error-nilcause", "error-nilcause-with-list", "error-aggregate", "error-server-timeout", "error-gateway-timeout", "error-too-many-requests", "error-forbidden", "nonlist", "nonobjects", "noitems", "status-object", "unstructured-object", "nil"}
 
 func genC14(g GenCtx) interface{} {
 	sc, rng := baseTree(g)
